@@ -309,7 +309,22 @@ func (e *kvElection) attemptAcquireWithRetry(ctx context.Context) {
 	}
 }
 
+// stopped reports whether the election has been stopped (or never started).
+// Background goroutines that are not tracked by the wait group check it
+// before issuing a new store operation, so that nothing new is sent once
+// Stop has returned.
+func (e *kvElection) stopped() bool {
+	e.mu.RLock()
+	ctx := e.ctx
+	e.mu.RUnlock()
+	return ctx == nil || ctx.Err() != nil
+}
+
 func (e *kvElection) attemptAcquire() error {
+	if e.stopped() {
+		return ErrAlreadyStopped
+	}
+
 	token := uuid.New().String()
 
 	payload := leadershipPayload{
@@ -467,9 +482,17 @@ func (e *kvElection) becomeLeader(token string, rev uint64) {
 }
 
 func (e *kvElection) attemptPriorityTakeover(payloadBytes []byte) error {
+	if e.stopped() {
+		return ErrAlreadyStopped
+	}
+
 	entry, err := e.kv.Get(e.key)
 	if err != nil {
 		return err
+	}
+
+	if e.stopped() {
+		return ErrAlreadyStopped
 	}
 
 	var currentPayload leadershipPayload
